@@ -60,6 +60,10 @@ pub struct Config {
     /// lowest descriptor number the process can be given (3 = stdin/stdout/stderr are open;
     /// 0 = a daemon that closed them)
     pub first_fd: i32,
+    /// the process holds other descriptors, so that only every `fd_stride`-th number (counted from
+    /// `first_fd`) is free for the objects of the simulation: connections get numbers that are far
+    /// apart and congruent modulo the stride (0 and 1 = no gaps)
+    pub fd_stride: usize,
 }
 
 impl Default for Config {
@@ -70,6 +74,7 @@ impl Default for Config {
             out_threshold: OutThreshold::Quarter,
             log: true,
             first_fd: 3,
+            fd_stride: 1,
         }
     }
 }
@@ -291,6 +296,12 @@ impl World {
         loop {
             if i >= self.fds.len() {
                 self.fds.resize(i + 1, None);
+            }
+            let base = self.cfg.first_fd.max(0) as usize;
+            if self.cfg.fd_stride > 1 && (i - base) % self.cfg.fd_stride != 0 {
+                // a number held by something else in the process
+                i += 1;
+                continue;
             }
             if self.fds[i].is_none() {
                 self.fds[i] = Some(obj);
